@@ -460,7 +460,21 @@ def coerce_key(env, c, key):
     return tuple(key) if isinstance(key, list) else key
 
 
-def run_program(env, cfg, prog, record=True):
+def final_live(env, session):
+    import sqlalchemy as sa
+    conn = session.connection()
+    out = []
+    for ci, cls in enumerate(env.classes):
+        for row in conn.execute(sa.select(cls.__table__)):
+            out.append([ci] + [coerce_val(v) for v in row])
+    for ai, tbl in enumerate(env.assoc):
+        for row in conn.execute(sa.select(tbl)):
+            out.append([100 + ai] + [coerce_val(v) for v in row])
+    out.sort(key=lambda r: json.dumps(r, default=str))
+    return out
+
+
+def run_program(env, cfg, prog, record=True, plain=False):
     """Execute prog on the real code. Returns dict(trace, snaps, outcomes)."""
     import sqlalchemy as sa
     s = env.session()
@@ -515,7 +529,7 @@ def run_program(env, cfg, prog, record=True):
                         continue
                     s.delete(o)
                     refs.pop((c, json.dumps(key)), None)
-                elif kind in ('link', 'unlink'):
+                elif kind in ('link', 'unlink', 'link_rev', 'unlink_rev'):
                     a, l = lookup(0, op[1]), lookup(2, op[2])
                     if a is None or l is None:
                         outcomes.append('skip')
@@ -523,9 +537,22 @@ def run_program(env, cfg, prog, record=True):
                     if kind == 'link':
                         if l not in a.labels:
                             a.labels.append(l)
-                    else:
+                    elif kind == 'unlink':
                         if l in a.labels:
                             a.labels.remove(l)
+                    elif kind == 'link_rev':
+                        if a not in l.articles:
+                            l.articles.append(a)
+                    else:
+                        if a in l.articles:
+                            l.articles.remove(a)
+                elif kind == 'setlinks':
+                    a = lookup(0, op[1])
+                    ls = [lookup(2, x) for x in op[2]]
+                    if a is None or any(x is None for x in ls):
+                        outcomes.append('skip')
+                        continue
+                    a.labels = ls
                 elif kind == 'tagto':
                     t = lookup(1, op[1])
                     a = lookup(0, op[2]) if op[2] is not None else None
@@ -572,11 +599,18 @@ def run_program(env, cfg, prog, record=True):
                 s.rollback()
                 refs.clear()
                 mark('rollback')
+        fl = None
+        try:
+            s.rollback()
+            fl = final_live(env, s)
+            s.rollback()
+        except Exception as e:
+            fl = 'error: %s' % type(e).__name__
         return dict(trace=rec.trace if rec else [], snaps=rec.snaps if rec else [], outcomes=outcomes,
-                    ccfg=reflect_cfg(env, cfg), exc=None)
+                    ccfg=reflect_cfg(env, cfg) if not plain else [], exc=None, final_live=fl)
     except Exception as e:               # harness-level failure
         import traceback
-        return dict(trace=[], snaps=[], outcomes=outcomes, ccfg=[], exc='%s: %s\n%s' % (
+        return dict(trace=[], snaps=[], outcomes=outcomes, ccfg=[], final_live=None, exc='%s: %s\n%s' % (
             type(e).__name__, str(e)[:200], traceback.format_exc()[-800:]))
     finally:
         if rec:
@@ -593,18 +627,30 @@ def cfg_key(cfg):
 
 def _worker(chunk):
     cfg, items = chunk
-    out = []
+    out = {}
     with E.Env(options=options_for(cfg), plugins=plugins_for(cfg), build=SHAPES[cfg['shape']](cfg),
                autoflush=cfg.get('autoflush', False)) as env:
-        import sqlalchemy as sa
         for idx, prog in items:
             # clean database between programs
             conn = env.connection
             env.Base.metadata.drop_all(conn)
             env.Base.metadata.create_all(conn)
             conn.commit()
-            out.append((idx, run_program(env, cfg, prog)))
-    return out
+            out[idx] = run_program(env, cfg, prog)
+    if cfg.get('twin', True):
+        # the same programs on an identical model set WITHOUT versioning (C07 / C10)
+        with E.Env(build=SHAPES[cfg['shape']](cfg), versioned=False,
+                   autoflush=cfg.get('autoflush', False)) as env:
+            for idx, prog in items:
+                conn = env.connection
+                env.Base.metadata.drop_all(conn)
+                env.Base.metadata.create_all(conn)
+                conn.commit()
+                r = run_program(env, cfg, prog, record=False, plain=True)
+                out[idx]['plain_outcomes'] = r['outcomes']
+                out[idx]['plain_live'] = r['final_live']
+                out[idx]['plain_exc'] = r['exc']
+    return [(idx, o) for idx, o in out.items()]
 
 
 def run_impl(cases):
@@ -678,9 +724,22 @@ def g_snap(sn, ccfg):
         gnat(sn['uows'] + sn['smap']))
 
 
+def twin_diffs(obs):
+    """(ops whose outcome differs between the versioned and the plain run, final live tables differ?)"""
+    if 'plain_outcomes' not in obs:
+        return 0, False
+    a, b = obs['outcomes'], obs['plain_outcomes']
+
+    def norm(o):
+        return 'error' if o.startswith('error') else o
+    n = sum(1 for x, y in zip(a, b) if norm(x) != norm(y)) + abs(len(a) - len(b))
+    return n, obs.get('final_live') != obs.get('plain_live')
+
+
 def encode_case(case, obs):
-    if obs['exc'] is not None:
-        return '(mkcase (mkcfg true false false false false []) [] [] true)'
-    return '(mkcase %s %s %s false)' % (
+    if obs['exc'] is not None or obs.get('plain_exc') is not None:
+        return '(mkcase (mkcfg true false false false false []) [] [] true 0 false)'
+    n, livediff = twin_diffs(obs)
+    return '(mkcase %s %s %s false %s %s)' % (
         g_cfg(case['cfg'], obs['ccfg']), glist(obs['trace'], g_event),
-        glist(obs['snaps'], lambda s: g_snap(s, obs['ccfg'])))
+        glist(obs['snaps'], lambda s: g_snap(s, obs['ccfg'])), gnat(n), gbool(livediff))
